@@ -2530,3 +2530,128 @@ example : pdfAddAll (fun d => d.length) ([] : PDFSetM ℤ ℕ) (permutationDicts
 example : pdfAdd ([([("a", (1 : ℤ))], (0 : ℕ))]) 7 [("a", 1)] = none := by decide
 example : irrLowerC ([1, 2, 4, 8] : List ℤ) 0 = none ∧ irrLowerArr ([1, 2, 4, 8] : List ℤ) [3, 0] = none ∧
     irrUpperArr ([1, 2, 4, 8] : List ℤ) [3, 5] = some [4, 8] := by decide
+
+/-! ## The PDF registry over several parameter grids -/
+
+section registryD
+variable {F : Type} [BEq F] [LawfulBEq F] {P : Type}
+
+namespace C15
+
+/-- the key comparison looks at the items as a set: it does not change under a reordering of the
+looked-up dictionary -/
+theorem keyEq_perm_right (a d d' : List (String × F)) (h : d'.Perm d) : keyEq a d' = keyEq a d := by
+  unfold keyEq
+  congr 1
+  · apply List.all_congr rfl
+    intro i
+    rw [Bool.eq_iff_iff]
+    simp only [List.any_eq_true]
+    constructor
+    · rintro ⟨j, hj, e⟩; exact ⟨j, h.mem_iff.mp hj, e⟩
+    · rintro ⟨j, hj, e⟩; exact ⟨j, h.mem_iff.mpr hj, e⟩
+  · rw [Bool.eq_iff_iff]
+    simp only [List.all_eq_true]
+    constructor
+    · intro hh i hi; exact hh i (h.mem_iff.mpr hi)
+    · intro hh i hi; exact hh i (h.mem_iff.mp hi)
+
+theorem pdfGet_perm (s : PDFSetM F P) (d d' : List (String × F)) (h : d'.Perm d) : pdfGet s d' = pdfGet s d := by
+  unfold pdfGet
+  congr 1
+  apply List.find?_congr
+  intro e _
+  exact keyEq_perm_right e.1 d d' h
+
+/-- with distinct names, equal keys of two value tuples mean equal tuples -/
+theorem zip_keyEq_inj (names : List String) (hn : names.Nodup) (t t' : List F)
+    (ht : t.length = names.length) (ht' : t'.length = names.length)
+    (h : keyEq (names.zip t) (names.zip t') = true) : t = t' := by
+  apply List.ext_getElem (by rw [ht, ht'])
+  intro i h1 h2
+  have hi : i < names.length := by rw [← ht]; exact h1
+  unfold keyEq at h
+  simp only [Bool.and_eq_true, List.all_eq_true, List.any_eq_true, beq_iff_eq] at h
+  have hmem : (names[i], t[i]) ∈ names.zip t := by
+    rw [List.mem_iff_getElem]
+    exact ⟨i, by simp [ht, hi], by simp⟩
+  obtain ⟨j, hj, hname, hval⟩ := h.1 _ hmem
+  obtain ⟨k, hk, rfl⟩ := List.mem_iff_getElem.mp hj
+  simp only [List.getElem_zip] at hname hval
+  have hk' : k < names.length := by
+    have := hk; simp only [List.length_zip] at this; omega
+  have hik : i = k := (List.Nodup.getElem_inj_iff hn).mp hname
+  subst hik
+  exact hval
+
+theorem gridProduct_length_mem {α : Type} (gs : List (List α)) (t : List α) (h : t ∈ gridProduct gs) :
+    t.length = gs.length := by
+  have := (c15_product_mem gs t).mp h
+  exact this.length_eq
+
+theorem gridProduct_nodup {α : Type} (gs : List (List α)) (h : ∀ g ∈ gs, g.Nodup) : (gridProduct gs).Nodup := by
+  induction gs with
+  | nil => simp [gridProduct]
+  | cons g rest ih =>
+    have hrest := ih (fun g' hg' => h g' (by simp [hg']))
+    have hg := h g (by simp)
+    unfold gridProduct
+    rw [List.nodup_flatMap]
+    constructor
+    · intro x _
+      exact hrest.map (fun a b hab => by simpa using hab)
+    · apply List.Pairwise.imp _ hg
+      intro a b hab
+      simp only [Function.onFun, List.disjoint_left, List.mem_map]
+      rintro _ ⟨t, _, rfl⟩ ⟨t', _, e⟩
+      simp only [List.cons.injEq] at e
+      exact hab e.1.symm
+
+end C15
+
+/-- **the dictionary-lookup clause for several parameters**: over any grids without repeated
+values and distinct parameter names, registering one PDF per entry of
+`parameter_permutation_dict_list` succeeds, and every permutation of grid values is found again —
+under its dictionary in *any* item order (the `frozenset` in `make_dict_hash`). -/
+theorem c15_pdfset_lookup_product (names : List String) (hn : names.Nodup) (gs : List (List F))
+    (hlen : names.length = gs.length) (hg : ∀ g ∈ gs, g.Nodup) (mk : List (String × F) → P) :
+    ∃ s, pdfAddAll mk ([] : PDFSetM F P) (permutationDicts names gs) = some s ∧
+      ∀ t ∈ gridProduct gs, ∀ d : List (String × F), d.Perm (names.zip t) →
+        pdfGet s d = some (mk (names.zip t)) := by
+  have hdist : (permutationDicts names gs).Pairwise fun a b => keyEq a b = false := by
+    unfold permutationDicts
+    rw [List.pairwise_map]
+    have hnd := C15.gridProduct_nodup gs hg
+    refine List.Pairwise.imp_of_mem ?_ hnd
+    intro t t' ht ht' hne
+    rw [Bool.eq_false_iff]
+    intro h
+    exact hne (C15.zip_keyEq_inj names hn t t'
+      (by rw [C15.gridProduct_length_mem gs t ht, hlen]) (by rw [C15.gridProduct_length_mem gs t' ht', hlen]) h)
+  refine ⟨_, C15.pdfAddAll_distinct mk _ hdist [] (by simp), ?_⟩
+  intro t ht d hd
+  simp only [List.nil_append]
+  rw [C15.pdfGet_perm _ _ d hd]
+  apply C15.pdfGet_registered mk _ hdist
+  unfold permutationDicts
+  exact List.mem_map.mpr ⟨t, ht, rfl⟩
+
+end registryD
+
+section linstore
+variable {F : Type} [Add F] [Sub F] [Mul F] [Div F] [LT F] [DecidableLT F] [RoundOps F]
+  [OfNat F 1] [OfNat F 2] [BEq F] [LawfulBEq F]
+
+/-- with a store-backed manifold function a used linear object answers like a fresh one on every
+history (store-level form of `c15_linear_cache_transparent`) -/
+theorem c15_linear_store_history (G : PGrid F) (ns : List Nat) (st : Store F)
+    (hinj : ∀ v v', roundLower G v = roundLower G v' → roundUpper G v = roundUpper G v')
+    (calls : List (Option Int × List F)) :
+    (linRunS G ns st none calls).2 = calls.map fun c => linSpec G st.get ns c.1 c.2 := by
+  rw [(c15_linear_keeps_manifold_store G ns st none calls).2]
+  exact c15_linear_cache_transparent G st.get ns hinj calls
+
+end linstore
+
+-- non-vacuity: distinct names, grids without repeated values
+example : (["q0", "q1"] : List String).Nodup ∧ ∀ g ∈ ([[-2, -1, 0], [5]] : List (List ℤ)), g.Nodup := by decide
